@@ -1,7 +1,11 @@
 import Robust.Irc.Inv
+import Robust.Irc.Proofs.Entry
 /-!
 # C14 — IRC state stays consistent
-(work in progress: the preservation theorems are added as they are proved)
+
+The invariant `GInv = Inv ∧ LInv ∧ NInv ∧ VInv` (`Robust/Irc/Proofs/InvDef.lean`, `FrameLogin.lean`,
+`NInv.lean`) holds in every state reachable from the initial one by well-formed entries
+(`C14_reachable`, from `applyEntry_preserves`); the theorems below spell out what it says.
 -/
 namespace Robust.Props.C14
 open Robust Robust.Irc
@@ -9,4 +13,168 @@ open Robust Robust.Irc
 /-- the consistency predicate holds of a fresh server -/
 theorem C14_init : invB ({} : St) = true := by decide
 
+/-- every state reachable by a well-formed history satisfies the invariant -/
+theorem C14_reachable {es : List Entry} {st : St} (hw : WfHistory {} es) (hr : runEntries {} es = .ok st) :
+    GInv st :=
+  run_preserves GInv_init hw hr
+
+/-- one entry preserves the invariant -/
+theorem C14_step (st st' : St) (e : Entry) (out : List Out) (h : GInv st) (he : EntryOk st e)
+    (hr : applyEntry st e = .ok (st', out)) : GInv st' :=
+  applyEntry_preserves st st' e out h he hr
+
+/-- nicknames are unique up to IRC case folding -/
+theorem C14_nick_unique {st : St} (h : GInv st) {a b : Id} {sa sb : Session}
+    (ha : AMap.get st.sessions a = some sa) (hb : AMap.get st.sessions b = some sb)
+    (hn : sa.nick ≠ "") (he : nickToLower sa.nick = nickToLower sb.nick) : a = b := by
+  have hnb : sb.nick ≠ "" := by
+    intro hb0
+    rw [hb0, nickToLower_empty] at he
+    exact hn (nickToLower_eq_empty.1 he)
+  have h1 := h.inv.owns a sa ha (h.inv.noDeleted a sa ha) hn
+  have h2 := h.inv.owns b sb hb (h.inv.noDeleted b sb hb) hnb
+  rw [he, h2] at h1
+  cases h1; rfl
+
+/-- no stored session is flagged deleted, and sessions are stored under their id -/
+theorem C14_sessions_live {st : St} (h : GInv st) {id : Id} {s : Session} (hs : AMap.get st.sessions id = some s) :
+    s.deleted = false ∧ s.id = id :=
+  ⟨h.inv.noDeleted id s hs, (h.inv.sessId id s hs).1⟩
+
+/-- a session with a nickname is indexed under it -/
+theorem C14_indexed {st : St} (h : GInv st) {id : Id} {s : Session} (hs : AMap.get st.sessions id = some s)
+    (hn : s.nick ≠ "") : AMap.get st.nicks (nickToLower s.nick) = some id :=
+  h.inv.owns id s hs (h.inv.noDeleted id s hs) hn
+
+/-- membership is symmetric: a session (with a nickname) lists a channel iff that channel lists it -/
+theorem C14_membership_symmetric {st : St} (h : GInv st) {id : Id} {s : Session}
+    (hs : AMap.get st.sessions id = some s) (hn : s.nick ≠ "") (lc : String) :
+    lc ∈ s.channels ↔ ∃ c, AMap.get st.channels lc = some c ∧ nickToLower s.nick ∈ AMap.keys c.nicks := by
+  have hl := h.inv.noDeleted id s hs
+  constructor
+  · intro hlc
+    obtain ⟨c, hc, hm⟩ := (h.inv.toWInv.owns_chans hs hl hn).2 lc hlc
+    exact ⟨c, hc, AMap.contains_iff_mem_keys.1 hm⟩
+  · rintro ⟨c, hc, hm⟩
+    obtain ⟨id', s', h1, h2, h3⟩ := (h.inv.chans lc c hc).2.2 _ hm
+    have h4 := h.inv.owns id s hs hl hn
+    rw [h4] at h1; cases h1
+    rw [hs] at h2; cases h2
+    exact h3
+
+/-- a session without nickname is in no channel and is not indexed; `""` is not an index key -/
+theorem C14_nickless_inert {st : St} (h : GInv st) :
+    AMap.get st.nicks "" = none ∧
+    ∀ id s, AMap.get st.sessions id = some s → s.nick = "" → s.channels = [] ∧ ∀ x, AMap.get st.nicks x ≠ some id :=
+  h.ninv
+
+/-- every nickname carried by a session and every channel name is syntactically valid -/
+theorem C14_names_valid {st : St} (h : GInv st) :
+    (∀ id s, AMap.get st.sessions id = some s → s.nick ≠ "" → isValidNickname s.nick = true) ∧
+    (∀ lc c, AMap.get st.channels lc = some c → isValidChannel c.name = true) :=
+  h.vinv
+
+/-- a registered session has a nickname -/
+theorem C14_logged_in_has_nick {st : St} (h : GInv st) {id : Id} {s : Session}
+    (hs : AMap.get st.sessions id = some s) (hl : s.loggedIn = true) : s.nick ≠ "" :=
+  h.linv id s hs hl
+
+/-- no stored channel is empty -/
+theorem C14_no_empty_channel {st : St} (h : GInv st) {lc : String} {c : Channel}
+    (hc : AMap.get st.channels lc = some c) : c.nicks ≠ [] :=
+  h.inv.nonempty lc c hc
+
+/-- channels are stored under their lower-cased name -/
+theorem C14_channel_key {st : St} (h : GInv st) {lc : String} {c : Channel}
+    (hc : AMap.get st.channels lc = some c) : chanToLower c.name = lc :=
+  (h.inv.chans lc c hc).1
+
+/-- every member of a channel is a live, indexed session carrying that nick and listing the channel -/
+theorem C14_members_are_live_and_reachable {st : St} (h : GInv st) {lc n : String} {c : Channel}
+    (hc : AMap.get st.channels lc = some c) (hm : n ∈ AMap.keys c.nicks) :
+    ∃ id s, AMap.get st.nicks n = some id ∧ AMap.get st.sessions id = some s ∧ s.deleted = false ∧
+      nickToLower s.nick = n ∧ lc ∈ s.channels := by
+  obtain ⟨id, s, h1, h2, h3, h4, h5, _⟩ := h.inv.toWInvCore.chanMember_live hc hm
+  exact ⟨id, s, h1, h2, h4, h5, h3⟩
+
+/-- the index only points to live sessions carrying that nick -/
+theorem C14_index_sound {st : St} (h : GInv st) {n : String} {id : Id} (hi : AMap.get st.nicks n = some id) :
+    ∃ s, AMap.get st.sessions id = some s ∧ s.deleted = false ∧ nickToLower s.nick = n :=
+  h.inv.index n id hi
+
+/-- the maps have no duplicate keys -/
+theorem C14_nodup {st : St} (h : GInv st) :
+    (AMap.keys st.sessions).Nodup ∧ (AMap.keys st.nicks).Nodup ∧ (AMap.keys st.channels).Nodup :=
+  ⟨h.inv.sessNodup, h.inv.nickNodup, h.inv.chanNodup⟩
+
+/-- session creation at or above the configured limit is refused (and only then) -/
+theorem C14_limits_sessions (st : St) (id : Id) (auth : String) (ts : Int) :
+    createSession st id auth ts = none ↔ (st.sessions.length ≥ st.config.maxSessions ∧ st.config.maxSessions > 0) := by
+  unfold createSession
+  split
+  · rename_i hc
+    simp only [Bool.and_eq_true, decide_eq_true_eq] at hc
+    exact ⟨fun _ => hc, fun _ => rfl⟩
+  · rename_i hc
+    simp only [Bool.and_eq_true, decide_eq_true_eq] at hc
+    exact ⟨(fun h => by cases h), fun h => absurd h hc⟩
+
+theorem all_of_get {κ ν : Type} [DecidableEq κ] {m : AMap κ ν} {p : κ × ν → Bool}
+    (h : ∀ k v, AMap.get m k = some v → p (k, v) = true) (hn : (AMap.keys m).Nodup) : m.all p = true :=
+  (AMap.all_iff_get hn).2 h
+
+/-- the executable consistency predicate (the twin of `ircserver.VerifWalk`) holds in every state
+satisfying the proved invariant -/
+theorem C14_invB {st : St} (h : GInv st) : invB st = true := by
+  unfold invB
+  simp only [Bool.and_eq_true]
+  refine ⟨⟨⟨⟨⟨?_, ?_⟩, ?_⟩, ?_⟩, ?_⟩, ?_⟩
+  · simpa [keysNodup] using h.inv.sessNodup
+  · simpa [keysNodup] using h.inv.nickNodup
+  · simpa [keysNodup] using h.inv.chanNodup
+  · refine all_of_get (fun id s hs => ?_) h.inv.sessNodup
+    have hl := h.inv.noDeleted id s hs
+    obtain ⟨hid, hnd⟩ := h.inv.sessId id s hs
+    simp only [Bool.and_eq_true, decide_eq_true_eq]
+    refine ⟨?_, hnd⟩
+    unfold sessionOk
+    simp only [Bool.and_eq_true, beq_iff_eq, Bool.not_eq_true', Bool.or_eq_true]
+    refine ⟨⟨hid, hl⟩, ?_⟩
+    by_cases hn : s.nick = ""
+    · exact Or.inl hn
+    · right
+      simp only [bne_iff_ne, ne_eq]
+      refine ⟨⟨⟨?_, h.inv.owns id s hs hl hn⟩, Or.inr (h.vinv.1 id s hs hn)⟩, ?_⟩
+      · refine all_of_get (fun id' s' hs' => ?_) h.inv.sessNodup
+        simp only [Bool.or_eq_true, beq_iff_eq, bne_iff_ne, ne_eq]
+        by_cases h1 : id' = id
+        · exact Or.inl (Or.inl h1)
+        by_cases h2 : s'.nick = ""
+        · exact Or.inl (Or.inr h2)
+        right
+        intro he
+        exact h1 (C14_nick_unique h hs' hs h2 he)
+      · rw [List.all_eq_true]
+        intro ch hch
+        obtain ⟨c, hc, hm⟩ := (h.inv.toWInv.owns_chans hs hl hn).2 ch hch
+        rw [hc]; exact hm
+  · refine all_of_get (fun lc id hi => ?_) h.inv.nickNodup
+    obtain ⟨s, hs, _, hlow⟩ := h.inv.index lc id hi
+    unfold nickIndexOk
+    simp only [hs, beq_iff_eq]
+    exact hlow
+  · refine all_of_get (fun lc c hc => ?_) h.inv.chanNodup
+    obtain ⟨hname, hnd, hmem⟩ := h.inv.chans lc c hc
+    unfold channelOk
+    simp only [Bool.and_eq_true, beq_iff_eq, decide_eq_true_eq]
+    refine ⟨⟨⟨⟨hname, h.vinv.2 lc c hc⟩, ?_⟩, by simpa [keysNodup] using hnd⟩, ?_⟩
+    · have := h.inv.nonempty lc c hc
+      cases hcn : c.nicks with
+      | nil => exact absurd hcn this
+      | cons a t => simp
+    · rw [List.all_eq_true]
+      intro e he
+      obtain ⟨id, s, h1, h2, h3⟩ := hmem e.1 (AMap.mem_keys_of_mem he)
+      simp only [h1, h2]
+      exact List.contains_iff_mem.2 h3
 end Robust.Props.C14
